@@ -138,6 +138,12 @@ func (c *ProcChan) WaitStop() {
 // addCallCtx : add call context
 func (c *ProcChan) addCallCtx(ctx context.Context, proc Proc) (*procChanCtxT, error) {
 	var procCtx = newProcChanCtx(ctx, proc)
+	// a stopped chan accepts nothing: test the stop signal first, select picks at random among ready cases
+	select {
+	case <-c.stopChan:
+		return procCtx, ErrClosed
+	default:
+	}
 	select {
 	case c.ch <- procCtx:
 		return procCtx, nil
